@@ -112,9 +112,11 @@ def run_configs(draw, tree_data, k=3):
     kinds = list(draw(st.permutations(['zero', 'mid', 'huge'])))
     while len(kinds) < k:
         kinds.append(draw(st.sampled_from(['zero', 'mid', 'huge'])))
+    # a serial run and a parallel one in every case
+    workers = list(draw(st.permutations([1, draw(st.integers(2, 4))] + [draw(st.integers(1, 4)) for _ in range(max(0, k - 2))])))
     out = []
-    for kind in kinds[:k]:
-        out.append({'n_processors': draw(st.integers(1, 4)), 'behemoth_cutoff': cuts[kind], 'cutoff_kind': kind,
+    for kind, nw in zip(kinds[:k], workers):
+        out.append({'n_processors': nw, 'behemoth_cutoff': cuts[kind], 'cutoff_kind': kind,
                     'entry': draw(st.sampled_from(['select_all_markers', 'select_all_markers', 'raw_lookup']))})
     return out
 
